@@ -3,14 +3,14 @@ JOBS = []
 def _u(w): return ["--unwind", str(w + 4), "--unwinding-assertions"]
 for w in (32, 64):
     for base in (2, 8, 10, 16, 7):
-        quick = (w == 32) or base in (10, 16)
+        quick = (w == 32)
         JOBS.append(dict(name="fmt.struct.w%d.b%d" % (w, base), props=["C14", "C15", "C01"], kind="PU",
             bound="digit loops bounded by the operand width: unwound %d with unwinding assertions (complete); all values, sign flag, len 0..72 symbolic; base fixed to %d%s" % (w + 4, base, " (an 'other' base, meaning 10)" if base == 7 else ""),
             harness="h_fmt.c", entry="h_fmt_struct", contracts=["common.h"], defines=["W=%d" % w, "FIXBASE=%d" % base], loops=False,
             cbmc_flags=_u(w), tier="quick" if quick else "thorough", timeout=1800, cost=20,
             what="length, truncation, NUL, canaries beyond the buffer, sign, digit range, no leading zero"))
     for base in (2, 8, 16):
-        quick = (w == 32) or base == 16
+        quick = (w == 32)
         JOBS.append(dict(name="fmt.value.w%d.b%d" % (w, base), props=["C14", "C07", "C17"], kind="PU",
             bound="unwound %d with unwinding assertions (complete), all 2^%d values" % (w + 4, w),
             harness="h_fmt.c", entry="h_fmt_value", contracts=["common.h"], defines=["W=%d" % w, "FIXBASE=%d" % base], loops=False,
@@ -19,14 +19,14 @@ for w in (32, 64):
     JOBS.append(dict(name="fmt.value.w%d.b10.bounded" % w, props=["C14", "C07", "C17"], kind="B",
             bound="|value| < 10^6 only (base-10 value exactness over the full domain was not decided by any back end; see DESIGN C14)",
             harness="h_fmt.c", entry="h_fmt_value", contracts=["common.h"], defines=["W=%d" % w, "FIXBASE=10", "VALMAX=999999"], loops=False,
-            cbmc_flags=_u(w), timeout=900, cost=10,
+            cbmc_flags=_u(w), timeout=900, cost=10, tier="quick" if w == 32 else "thorough",
             what="value exactness base 10 by Horner re-evaluation, bounded range"))
     JOBS.append(dict(name="fmt.wrappers.w%d" % w, props=["C14", "C15"], kind="PU", bound="as above",
             harness="h_fmt.c", entry="h_fmt_wrappers", contracts=["common.h"], defines=["W=%d" % w], loops=False,
-            cbmc_flags=_u(w), timeout=1800, cost=10, what="public wrappers delegate with the right sign flag / base"))
+            cbmc_flags=_u(w), timeout=1800, cost=10, tier="quick" if w == 32 else "thorough", what="public wrappers delegate with the right sign flag / base"))
 for fn, w in (("UInt32ToStrBaseSign", 32), ("UInt64ToStrBaseSign", 64), ("SCPI_UInt32ToStrBase", 32)):
     JOBS.append(dict(name="fmt.contract." + fn, props=["C14", "C15", "C06", "C17", "C01"], kind="PU",
         bound="digit loops unwound %d with unwinding assertions (complete)" % (w + 4),
         harness="h_fmt.c", entry="h_" + fn, enforce=fn, contracts=["result.h"], defines=["W=%d" % w], loops=False,
-        cbmc_flags=_u(w), timeout=1800, cost=15,
+        cbmc_flags=_u(w), timeout=3000, cost=15, tier="quick" if w == 32 else "thorough", mem_gb=12 if w == 32 else 40,
         what="shape contract used by every caller: result <= len, NUL if room, frame = the caller's buffer, first character is a digit or '-', decimal digit count"))
